@@ -566,40 +566,7 @@ func runC05(p *Prog, r *Report) {
 		})
 		r.Sites++
 		r.Check(okTested && procCtx != nil, "cancel-link.tested", "R-GUARD", p.InstrPos(send), "each send is on the procCtx.Err() == nil edge", "requests are sent without testing the batch's own context (the one cancelled when the server terminates): cases would be sent to a dead server instead of being marked")
-		okLink := false
-		h, _ := closureArgOfCall(rts, func(c *ssa.CallCommon) bool { return isCallToNamed(c, ccPath, "processController", "whenDone") }, 0)
-		if h != nil && startCall != nil {
-			eachInstr(h, func(in ssa.Instruction) {
-				c := callCommon(in)
-				if c == nil || c.IsInvoke() {
-					return
-				}
-				// calls the captured cancel func of procCtx
-				v := c.Value
-				if u, ok := v.(*ssa.UnOp); ok {
-					if fv, ok := u.X.(*ssa.FreeVar); ok {
-						for i, f := range h.FreeVars {
-							if f == fv {
-								// binding i in the MakeClosure
-								eachInstr(rts, func(in2 ssa.Instruction) {
-									if mc, ok := in2.(*ssa.MakeClosure); ok && mc.Fn == ssa.Value(h) {
-										if a, ok := mc.Bindings[i].(*ssa.Alloc); ok {
-											for _, sv := range reachingStores(a, mc) {
-												if ex, ok := sv.(*ssa.Extract); ok && ex.Tuple == procCtx && ex.Index == 1 {
-													okLink = true
-												}
-											}
-										}
-									}
-								})
-							}
-						}
-					}
-				}
-			})
-		}
-		r.Sites++
-		r.Check(okLink, "cancel-link.whenDone", "R-MUSTCALL", p.Pos(rts.Pos()), "the server's whenDone handler cancels the batch context", "the server's termination no longer cancels the batch context: the send loop cannot notice a dead server")
+		cancelLinkRule(p, r)
 	}
 }
 
@@ -633,4 +600,71 @@ func sliceContains(v ssa.Value, x ssa.Value) bool {
 		}
 	}
 	return false
+}
+
+// cancelLinkRule: the handler registered with the server process's whenDone
+// cancels the batch context (the one the send loop tests) on EVERY path —
+// whatever the process's result was: a server that exits cleanly in the
+// middle of a batch is just as dead as one that crashed. Shared by C05 and C11.
+func cancelLinkRule(p *Prog, r *Report) {
+	rts := p.Func(pkgCC, "", "runTestCasesForServer")
+	if rts == nil {
+		r.Undecided("cancel-link.whenDone", "R-MUSTCALL", "runTestCasesForServer not found")
+		return
+	}
+	var procCtx ssa.Value
+	eachInstr(rts, func(in ssa.Instruction) {
+		if c, ok := in.(*ssa.Call); ok && isCallToNamed(&c.Call, "context", "", "WithCancel") {
+			procCtx = c
+		}
+	})
+	r.Sites++
+	h, _ := closureArgOfCall(rts, func(c *ssa.CallCommon) bool { return isCallToNamed(c, ccPath, "processController", "whenDone") }, 0)
+	if h == nil || procCtx == nil {
+		r.Fail("cancel-link.whenDone", "R-MUSTCALL", p.Pos(rts.Pos()), "the server's termination no longer cancels the batch context (no whenDone handler / no batch context found): the send loop cannot notice a dead server")
+		return
+	}
+	isCancel := func(in ssa.Instruction) bool {
+		c := callCommon(in)
+		if c == nil || c.IsInvoke() {
+			return false
+		}
+		u, ok := c.Value.(*ssa.UnOp)
+		if !ok {
+			return false
+		}
+		fv, ok := u.X.(*ssa.FreeVar)
+		if !ok {
+			return false
+		}
+		hit := false
+		for i, f := range h.FreeVars {
+			if f != fv {
+				continue
+			}
+			eachInstr(rts, func(in2 ssa.Instruction) {
+				if mc, ok := in2.(*ssa.MakeClosure); ok && mc.Fn == ssa.Value(h) {
+					if a, ok := mc.Bindings[i].(*ssa.Alloc); ok {
+						for _, sv := range reachingStores(a, mc) {
+							if ex, ok := sv.(*ssa.Extract); ok && ex.Tuple == procCtx && ex.Index == 1 {
+								hit = true
+							}
+						}
+					}
+				}
+			})
+		}
+		return hit
+	}
+	if len(findInstrs(h, isCancel)) == 0 {
+		r.Fail("cancel-link.whenDone", "R-MUSTCALL", p.Pos(h.Pos()), "the server's termination no longer cancels the batch context: the send loop cannot notice a dead server")
+		return
+	}
+	ok, exit := entryMustPass(h, isCancel)
+	pos := p.Pos(h.Pos())
+	if !ok && exit != nil {
+		pos = p.InstrPos(exit)
+	}
+	r.Check(ok, "cancel-link.whenDone", "R-MUSTCALL", pos, "the server's whenDone handler cancels the batch context on every path",
+		"the server's whenDone handler can return without cancelling the batch context (e.g. only for a non-nil process error): a server that exits cleanly in the middle of a batch is not noticed and the remaining cases are sent to nobody / counted as if they had run")
 }
